@@ -22,7 +22,7 @@ BUDGET = {'quick': 4000, 'thorough': 120000}
 
 def strategy(tier):
   max_ops = 25 if tier == 'quick' else 40
-  roots = st.lists(values.container_desc(max_leaves=12), min_size=1, max_size=3)
+  roots = st.lists(values.container_desc(max_leaves=12, typed=True), min_size=1, max_size=3)
   return st.fixed_dictionaries({
       'roots': roots,
       'ops': st.lists(treeops.op_strategy(), min_size=1, max_size=max_ops),
